@@ -76,6 +76,7 @@ type Exec struct {
 	lazy     []*LazyForall
 	goalLazy []*LazyForall // quantified hypotheses of the goal currently being built
 	goalHints []*Term      // instantiation terms offered by using(t, F) in the goal being built
+	frameChecked map[*WriteRec]bool
 	cardDone map[string]bool
 	dry      int // >0: no obligations are recorded
 	noObl    int
@@ -303,6 +304,7 @@ func (ex *Exec) runRegion(fr *Frame, st0 *State, start *ssa.BasicBlock, allowed 
 	in := map[*ssa.BasicBlock][]*State{}
 	in[start] = []*State{st0}
 	var rets []retRec
+	pendingBacks := map[*ssa.BasicBlock]*State{}
 	started := false
 	for _, b := range fi.order {
 		if b == start {
@@ -396,6 +398,8 @@ func (ex *Exec) runRegion(fr *Frame, st0 *State, start *ssa.BasicBlock, allowed 
 					*backs = append(*backs, s)
 					return
 				}
+				// the invariant is checked on each back edge (simpler queries); the frame condition
+				// once, on the merged state
 				ex.checkInvariant(fr, s, fi.loops[to], "inv-step")
 				ex.frameObligations(fr, s, ex.contract, "loop-frame")
 				return
@@ -433,6 +437,14 @@ func (ex *Exec) runRegion(fr *Frame, st0 *State, start *ssa.BasicBlock, allowed 
 			addEdge(b.Succs[0], s1)
 			addEdge(b.Succs[1], s2)
 		}
+	}
+	var heads []*ssa.BasicBlock
+	for h := range pendingBacks {
+		heads = append(heads, h)
+	}
+	sort.Slice(heads, func(i, j int) bool { return heads[i].Index < heads[j].Index })
+	for _, h := range heads {
+		_ = pendingBacks[h]
 	}
 	return rets
 }
@@ -1223,18 +1235,43 @@ func (ex *Exec) makeInterface(st *State, v Value, t types.Type) Value {
 	switch x := v.(type) {
 	case PtrV:
 		if x.L.Kind == LHeap && len(x.L.Path) == 0 {
-			return IfV{tag, x.L.Ref, t}
+			return IfV{Tag: tag, Ref: x.L.Ref, Ty: t, Conc: v}
 		}
+		// interior or local pointer: no plain reference; known only through Conc
+		r := Fresh("boxptr", RefSort)
+		st.assume(Neq(r, BVi(0, 32)))
+		return IfV{Tag: tag, Ref: r, Ty: t, Conc: v}
 	case Sc:
 		if x.T.Sort == RefSort {
-			return IfV{tag, x.T, t}
+			return IfV{Tag: tag, Ref: x.T, Ty: t, Conc: v}
 		}
+	case IfV:
+		return IfV{Tag: x.Tag, Ref: x.Ref, Ty: t, Conc: x.Conc}
 	}
-	// non-pointer payload: boxed opaquely
-	ex.note("interface boxing of non-pointer %s: payload abstracted", v.Type())
+	// value payload: boxing allocates an immutable copy in the heap family of its type
+	if r, ok := ex.boxValue(st, v); ok {
+		return IfV{Tag: tag, Ref: r, Ty: t, Conc: v}
+	}
+	ex.note("interface boxing of %s: payload abstracted", v.Type())
 	r := Fresh("box", RefSort)
 	st.assume(ULt(r, st.Alloc))
-	return IfV{tag, r, t}
+	return IfV{Tag: tag, Ref: r, Ty: t, Conc: v}
+}
+
+func (ex *Exec) boxValue(st *State, v Value) (r *Term, ok bool) {
+	defer func() {
+		if e := recover(); e != nil {
+			if _, isU := e.(unsupported); isU {
+				ok = false
+				return
+			}
+			panic(e)
+		}
+	}()
+	flatten(v)
+	r = st.allocRef()
+	st.store(Loc{Kind: LHeap, Root: v.Type(), Ref: r, Ty: v.Type()}, v)
+	return r, true
 }
 
 func (ex *Exec) typeAssert(fr *Frame, st *State, x *ssa.TypeAssert) Value {
@@ -1243,31 +1280,48 @@ func (ex *Exec) typeAssert(fr *Frame, st *State, x *ssa.TypeAssert) Value {
 	var res Value
 	if _, isIface := x.AssertedType.Underlying().(*types.Interface); isIface {
 		ok = Fresh("implements", BoolSort)
+		if iv.Conc != nil {
+			// the concrete type is known: does it implement the interface?
+			ok = Bool(types.Implements(iv.Conc.Type(), x.AssertedType.Underlying().(*types.Interface)))
+		}
 		st.assume(Implies(ok, Neq(iv.Tag, BVi(0, 32))))
-		res = IfV{iv.Tag, iv.Ref, x.AssertedType}
+		res = IfV{Tag: iv.Tag, Ref: iv.Ref, Ty: x.AssertedType, Conc: iv.Conc}
 	} else {
 		ok = Eq(iv.Tag, ex.P.typeTag(x.AssertedType))
-		switch u := x.AssertedType.Underlying().(type) {
-		case *types.Pointer:
-			res = PtrV{Loc{Kind: LHeap, Root: u.Elem(), Ref: iv.Ref, Ty: u.Elem()}, x.AssertedType}
-		default:
-			res = freshValue("unboxed", x.AssertedType)
-			st.assume(st.wf(res))
-			ex.note("type assertion to non-pointer %s: payload abstracted", x.AssertedType)
+		if iv.Conc != nil && types.Identical(iv.Conc.Type(), x.AssertedType) {
+			res = iv.Conc
+		} else {
+			switch u := x.AssertedType.Underlying().(type) {
+			case *types.Pointer:
+				res = PtrV{Loc{Kind: LHeap, Root: u.Elem(), Ref: iv.Ref, Ty: u.Elem()}, x.AssertedType}
+			default:
+				res = ex.unbox(st, iv, x.AssertedType)
+			}
 		}
 	}
 	if x.CommaOk {
 		zero := zeroValue(x.AssertedType)
-		var rv Value
-		if _, isP := res.(PtrV); isP {
-			rv = iteValue(ok, res, zero)
-		} else {
-			rv = iteValue(ok, res, zero)
-		}
+		rv := iteValue(ok, res, zero)
 		return TupV{E: []Value{rv, Sc{ok, types.Typ[types.Bool]}}, Ty: x.Type()}
 	}
 	ex.check("typeassert", "", x.Pos(), st, ok)
 	return res
+}
+
+// unbox reads the boxed copy of a value of type t held by interface value iv.
+func (ex *Exec) unbox(st *State, iv IfV, t types.Type) (v Value) {
+	defer func() {
+		if e := recover(); e != nil {
+			if _, isU := e.(unsupported); isU {
+				v = freshValue("unboxed", t)
+				st.assume(st.wf(v))
+				ex.note("type assertion to %s: payload abstracted", t)
+				return
+			}
+			panic(e)
+		}
+	}()
+	return st.load(Loc{Kind: LHeap, Root: t, Ref: iv.Ref, Ty: t})
 }
 
 func (ex *Exec) indexAddr(fr *Frame, st *State, x *ssa.IndexAddr) Value {
@@ -1661,6 +1715,7 @@ func (ex *Exec) mapUpdate(fr *Frame, st *State, x *ssa.MapUpdate) {
 }
 
 func (ex *Exec) mapStore(st *State, mt *types.Map, r, k *Term, v Value) {
+	st.logWrite(&WriteRec{Kind: "map", Key: mapFam(mt), Ref: r})
 	ks := keySort(mt.Key())
 	fam := mapFam(mt)
 	was := ex.mapPresent(st, mt, r, k)
@@ -1685,6 +1740,7 @@ func (ex *Exec) mapStore(st *State, mt *types.Map, r, k *Term, v Value) {
 }
 
 func (ex *Exec) mapDelete(st *State, mt *types.Map, r, k *Term) {
+	st.logWrite(&WriteRec{Kind: "map", Key: mapFam(mt), Ref: r})
 	ks := keySort(mt.Key())
 	fam := mapFam(mt)
 	was := And(Neq(r, BVi(0, 32)), ex.mapPresent(st, mt, r, k))
